@@ -1,15 +1,21 @@
 #!/bin/bash
 # run.sh <property id> [quick|thorough]   — rebuilds from /repo's current working tree, runs the check.
+# run.sh replay <file>                    — re-executes a replay file without the explorer.
 set -u
-cd /verif
+export VERIF_ROOT="$(cd "$(dirname "$0")" && pwd)"
+cd "$VERIF_ROOT"
 . ./env.sh
 id=$(echo "$1" | tr 'A-Z' 'a-z')
 if [ "$id" != replay ]; then export VERIF_TIER=${2:-${VERIF_TIER:-quick}}; fi
-mkdir -p .build
-python3 tools/genoverlay.py .build/overlay || { echo "overlay generation failed"; exit 2; }
-if ! go build -overlay .build/overlay/overlay.json -o .build/vcheck ./cmd/vcheck 2> .build/build.log; then
-  cat .build/build.log
+# per-invocation build directory: concurrent invocations never share generated files
+B=".build/run.$$"
+mkdir -p "$B"
+trap 'rm -rf "$B"' EXIT
+python3 tools/genoverlay.py "$B/overlay" 2> "$B/gen.log" || { cat "$B/gen.log"; echo "overlay generation failed"; exit 2; }
+if ! go build -overlay "$B/overlay/overlay.json" -o "$B/vcheck" ./cmd/vcheck 2> "$B/build.log"; then
+  cat "$B/build.log"
   echo "BUILD FAILED (check cannot run)"; exit 2
 fi
-if [ "$id" = replay ]; then exec .build/vcheck replay "$2"; fi
-exec .build/vcheck "$id"
+if [ "$id" = replay ]; then "$B/vcheck" replay "$2"; exit $?; fi
+"$B/vcheck" "$id"
+exit $?
